@@ -201,4 +201,4 @@ def main():
               "(unsat of the negation = holds for all real inputs, no size bound). Reconstruction (iradon) sentences: not applicable.")
 
 if __name__ == "__main__":
-    main()
+    common.run_main(main)
